@@ -390,19 +390,90 @@ func C11() *sim.Check {
 		return nil
 	}
 
+	// generated recursion shapes: a procedure that re-enters itself through
+	// every call mechanism x every way of handing the callee over x bind or not,
+	// always NON-tail (something remains to be done after the inner call), so
+	// the nesting grows with every level and must be cut off by a PostScript
+	// error.  Run without any budget: a dead or hanging child is the violation.
+	mechs := []string{
+		"%s",                                     // plain name inside the body
+		"%s exec",                                // exec
+		"true %s if",                             // if
+		"false { } %s ifelse",                    // ifelse
+		"1 %s repeat",                            // repeat
+		"0 1 0 %s for",                           // for (pushes the control variable)
+		"[ 0 ] %s forall",                        // forall (pushes the element)
+		"{ %s exec exit } loop",                  // loop left by exit after the inner call
+		"errordict /undefined %s put nosuchname", // through an error handler
+	}
+	forms := []string{"{ a }", "{ a } 0 get", "/a load", "{ { a } exec }", "{ a } bind"}
+	nRec := len(mechs) * len(forms) * 2 * 2
+	recur := &sim.Batch{Name: "recursion-shapes", Quick: nRec, Thorough: nRec, Enumerated: true,
+		Isolated: true, PerProc: 1, Workers: 6, ChildTimeout: 25e9, TimeoutIsViolation: true}
+	recur.ChildInit = func() {
+		lim := syscall.Rlimit{Cur: 6 << 30, Max: 6 << 30}
+		syscall.Setrlimit(syscall.RLIMIT_AS, &lim)
+	}
+	recur.Run = func(c *sim.RunCtx) *sim.Outcome {
+		i := c.Index
+		mech := mechs[i%len(mechs)]
+		i /= len(mechs)
+		form := forms[i%len(forms)]
+		i /= len(forms)
+		bind := i%2 == 1
+		i /= 2
+		after := []string{"1", "1 pop"}[i%2]
+		callee := form
+		if mech == "%s" {
+			callee = "a" // the plain-name mechanism has no operand form
+		}
+		body := fmt.Sprintf(mech, callee) + " " + after
+		src := "/a { " + body + " } "
+		if bind {
+			src += "bind "
+		}
+		src += "def a"
+		in := newInterp(0)
+		ex := runPS(in, []byte(src), gen.RefSchedule(), nil, sim.Fault{}, nil)
+		c.St.Inc("recursion_shapes_run")
+		c.St.Case(uint64(c.Index) | 4<<40)
+		human := map[string]any{"program": src, "error": dump.Err(ex.Err), "NumOps": in.NumOps, "len(Stack)": len(in.Stack), "len(DictStack)": len(in.DictStack)}
+		if len(in.Stack) > capStack || len(in.DictStack) > capDictStack {
+			return &sim.Outcome{Class: "unbounded-growth", Key: "recursion:" + src, Detail: fmt.Sprintf("`%s`: operand stack %d / dictionary stack %d entries when the run ended", src, len(in.Stack), len(in.DictStack)), Human: human}
+		}
+		if ex.Err == nil || ex.Err == postscript.ErrExecutionLimitExceeded {
+			return &sim.Outcome{Class: "limit-not-enforced", Key: "recursion:" + src, Detail: fmt.Sprintf("non-tail self-recursion `%s` ended with %s instead of a PostScript error", src, dump.Err(ex.Err)), Human: human}
+		}
+		return nil
+	}
+	recur.ClassifyAbort = func(exit int, stderr string) *sim.Outcome {
+		if strings.Contains(stderr, "stack exceeds") || strings.Contains(stderr, "out of memory") || strings.Contains(stderr, "cannot allocate") {
+			return &sim.Outcome{Class: "process-abort", Key: "recursion:process-abort", Detail: "the process was killed by Go stack exhaustion / out of memory: execution nesting was not cut off", Human: map[string]any{"stderr": stderr[:min(len(stderr), 3000)]}}
+		}
+		return nil
+	}
+
 	// start check: every two-byte prefix (and the 0/1-byte inputs), three deliveries
-	start := &sim.Batch{Name: "startcheck", Quick: (65536 + 257) * 3, Thorough: (65536 + 257) * 3, Enumerated: true}
+	start := &sim.Batch{Name: "startcheck", Quick: (65536 + 257) * 3 * 3, Thorough: (65536 + 257) * 3 * 3, Enumerated: true}
 	start.Run = func(c *sim.RunCtx) *sim.Outcome {
-		v := c.Index / 3
+		v := (c.Index / 3) % (65536 + 257)
 		mode := c.Index % 3
+		cont := c.Index / (3 * (65536 + 257)) // what follows the two bytes
 		var src []byte
 		switch {
 		case v < 65536:
-			src = []byte{byte(v >> 8), byte(v), '\n', '1', ' ', '2', ' ', 'a', 'd', 'd', '\n'}
+			src = []byte{byte(v >> 8), byte(v)}
 		case v == 65536:
 			src = nil
 		default:
 			src = []byte{byte(v - 65537)}
+		}
+		// continuation 0: a newline and a program; 1: a genuine header follows the
+		// two bytes (" \n%!..." must still be rejected); 2: "!" follows (so that
+		// x% + ! looks like a header one byte late)
+		src = append(src, []string{"\n1 2 add\n", "%!\n1 2 add\n", "!\n1 2 add\n"}[cont]...)
+		if v >= 65536 && cont == 0 {
+			src = src[:len(src)-len("\n1 2 add\n")] // the bare 0- and 1-byte inputs
 		}
 		sch := sim.Schedule{Mode: sim.ChunkAll}
 		switch mode {
@@ -425,7 +496,8 @@ func C11() *sim.Check {
 			}
 			return nil
 		}
-		if ex.Err != nil || len(in.Stack) != 1 || dump.Object(in.Stack[0]) != "i3" {
+		wantTop := "i3"
+		if ex.Err != nil || len(in.Stack) != 1 || dump.Object(in.Stack[0]) != wantTop {
 			return &sim.Outcome{Class: "startcheck-rejects", Key: "startcheck:rejects-ps", Detail: fmt.Sprintf("input starting with %%! was not executed normally: %s", dump.Err(ex.Err)), Human: human}
 		}
 		// once passed, the check is not repeated on later calls
@@ -505,10 +577,10 @@ func C11() *sim.Check {
 
 	return &sim.Check{
 		Prop: "C11", Harness: "h_budget", Level: "fault_enumeration",
-		Rule:        "sweep/dispatch: for a generated (or hand-written) program P with T=ops(P), the budget is set to every N in 1..T+2 (an injected interruption at logical tick N+1; sampled at 340 points when T>1500), each under one of three drawn delivery schedules and, for programs without stop/currentfile operators, cut into 1-4 Execute calls on one instance; N>=T must reproduce the unbudgeted state exactly, N<T must return ErrExecutionLimitExceeded with NumOps==N+1. distinct_nontrivial counts distinct (program hash, N) with N<T for programs containing a loop and a procedure call, plus one per enumerated limit shape and start-check case. limits: ~75 growth shapes (incl. runaway programs handed to type1.Read / ReadCMap, which set their own budgets) x 2 deliveries in child processes (a Go stack overflow kills only the child). startcheck: all 65536 two-byte prefixes and the 0/1-byte inputs x 3 deliveries (exhaustive), plus random programs with/without header x delivery x call split x faults inside the peek.",
+		Rule:        "sweep/dispatch: for a generated (or hand-written) program P with T=ops(P), the budget is set to every N in 1..T+2 (an injected interruption at logical tick N+1; sampled at 340 points when T>1500), each under one of three drawn delivery schedules and, for programs without stop/currentfile operators, cut into 1-4 Execute calls on one instance; N>=T must reproduce the unbudgeted state exactly, N<T must return ErrExecutionLimitExceeded with NumOps==N+1. distinct_nontrivial counts distinct (program hash, N) with N<T for programs containing a loop and a procedure call, plus one per enumerated limit shape and start-check case. limits: ~75 growth shapes (incl. runaway programs handed to type1.Read / ReadCMap, which set their own budgets) x 2 deliveries in child processes (a Go stack overflow kills only the child). recursion-shapes: 9 call mechanisms x 5 operand forms x bind x 2 continuations of non-tail self-recursion, no budget, one child process each. startcheck: all 65536 two-byte prefixes and the 0/1-byte inputs x 3 continuations (program / a genuine %! header one or two bytes late / '!') x 3 deliveries (exhaustive), plus random programs with/without header x delivery x call split x faults inside the peek.",
 		Assume:      []string{"sub-clause 'limits' has no schedule in it: it is asserted on a fixed catalogue of growth shapes and reported separately (limit_shapes_run)", "stack caps used as oracle are deliberately generous (70000 / 1000) because the property names no number"},
 		RealStub:    map[string]any{"real": []string{"postscript.Interpreter and everything below it (unmodified /repo code)"}, "stub": []string{"program source (SimReader with drawn chunking)", "the caller (budget values, Execute call splits)"}},
-		Batches:     []*sim.Batch{fixedB, start, limits, sweep, startH},
+		Batches:     []*sim.Batch{fixedB, start, limits, recur, sweep, startH},
 		SimTimeUnit: "interpreter operations (ticks of the logical clock NumOps) executed in budgeted runs", SimTimeCounters: []string{"sim_ticks"},
 		Probes: []string{"probe_budget_spans_execute_calls", "probe_fault_inside_start_peek", "programs_with_eexec", "runaway_programs", "programs_nontrivial"},
 	}
